@@ -17,8 +17,14 @@ PYTHONPATH="$WT" $RUN >"$OUT/demo_changed.log" 2>&1; D1=$?
 echo "demo: unchanged rc=$D0 changed rc=$D1"
 (cd "$WT" && PYTHONPATH="$WT" /venv/bin/python -m pytest -q -p no:cacheprovider --no-cov 2>&1 | tail -2) >"$OUT/pytest_changed.log"; 
 T=$(tail -1 "$OUT/pytest_changed.log"); echo "tests: $T"
-cd /verif
+# the check runs in a private copy of /verif (its Generated/ tables and driver are rebuilt from the patched worktree),
+# so that evaluations can run in parallel and /verif itself keeps the tables and evidence of /repo
+VV="/tmp/evv-$ID"; rm -rf "$VV"; mkdir -p "$VV"
+(cd /verif && tar cf - --exclude=.git --exclude=replays --exclude=seeded .) | (cd "$VV" && tar xf -)
+cd "$VV"
 VERIF_REPO="$WT" bin/check "$PROP" --tier quick >"$OUT/check_quick.log" 2>&1; C=$?
+mkdir -p "$OUT/replays"; for r in $(grep -o "replays/[A-Za-z0-9_./-]*" "$OUT/check_quick.log" | sort -u | head -3); do cp "$VV/$r" "$OUT/replays/" 2>/dev/null; done
+cd /verif; rm -rf "$VV"
 echo "check $PROP quick rc=$C"; grep -c "^VIOLATION" "$OUT/check_quick.log"; grep "^VIOLATION" -A1 "$OUT/check_quick.log" | head -6
 git -C /repo worktree remove --force "$WT"
 echo "$D0 $D1 $C" > "$OUT/.result"
